@@ -84,7 +84,7 @@ CheckEvent(e) ==
 CheckQuiesce(e) ==
   /\ Judge("C09", "Released", e.goroutines_after <= e.goroutines_before /\ e.fds_after <= e.fds_before,
             <<e.goroutines_before, e.goroutines_after, e.fds_before, e.fds_after>>, "no more goroutines or sockets than before")
-  /\ Judge("C09", "BoundedReturn", e.elapsed_max_ms * 100 <= e.T_ms * 150, <<e.elapsed_max_ms, e.T_ms>>, "within T + slack")
+  /\ Judge("C09", "BoundedReturn", e.disturbed \/ e.elapsed_max_ms * 100 <= e.T_ms * 150, <<e.elapsed_max_ms, e.T_ms>>, "within T + slack")
   /\ Judge("C09", "NoEarlyGiveUp", e.elapsed_min_ms >= e.T_ms - 2, <<e.elapsed_min_ms, e.T_ms>>, "not before T")
 
 \* C08 at the schedule "A's transport has returned, B runs to completion, only then does A look at its bytes"
